@@ -444,6 +444,7 @@ func (e *env) snapSubject(name string) subjSnap {
 		return out
 	}
 	out.Listed = true
+	types := map[string]bool{}
 	for _, id := range dids {
 		ds := didSnap{DID: id.String(), Method: id.Method}
 		var rows []struct {
@@ -463,6 +464,31 @@ func (e *env) snapSubject(name string) subjSnap {
 		} else {
 			ds.VMs, ds.Services = docParts(doc)
 			ds.Deactivated = resolver.IsDeactivated(*doc)
+			for _, s := range doc.Service {
+				types[s.Type] = true
+			}
+		}
+		if latest, err := didsubject.NewDIDDocumentManager(e.db).Latest(id, nil); err != nil {
+			ds.RowsErr = err.Error()
+		} else {
+			for _, vm := range latest.VerificationMethods {
+				ds.RowVMs = append(ds.RowVMs, fmt.Sprintf("%s usage=%d %s", vm.ID, vm.KeyTypes, sum(vm.Data)))
+			}
+			for _, s := range latest.Services {
+				var svc did.Service
+				if err := json.Unmarshal(s.Data, &svc); err != nil {
+					ds.RowServices = append(ds.RowServices, s.ID+" (unreadable row: "+err.Error()+")")
+					continue
+				}
+				types[svc.Type] = true
+				frag := s.ID
+				if at := strings.LastIndex(frag, "#"); at >= 0 {
+					frag = frag[at+1:]
+				}
+				ds.RowServices = append(ds.RowServices, frag+":"+svc.Type+" "+sum(s.Data))
+			}
+			sort.Strings(ds.RowVMs)
+			sort.Strings(ds.RowServices)
 		}
 		if id.Method == "nuts" {
 			ndoc, meta, err := e.store.Resolve(id, &resolver.ResolveMetadata{AllowDeactivated: true})
@@ -472,9 +498,31 @@ func (e *env) snapSubject(name string) subjSnap {
 				ds.NetVMs, ds.NetServices = docParts(ndoc)
 				ds.NetHash = meta.Hash.String()[:16]
 				ds.NetTxs = len(meta.SourceTransactions)
+				for _, s := range ndoc.Service {
+					types[s.Type] = true
+				}
 			}
 		}
 		out.DIDs = append(out.DIDs, ds)
+	}
+	// FindServices, for every service type any view of any DID of the subject knows
+	for typ := range types {
+		typ := typ
+		found, err := e.mgr.FindServices(ctx(), name, &typ)
+		if out.Found == nil {
+			out.Found = map[string][]string{}
+		}
+		if err != nil {
+			out.Found[typ] = []string{"error: " + err.Error()}
+			continue
+		}
+		list := []string{}
+		for _, s := range found {
+			b, _ := json.Marshal(s)
+			list = append(list, s.ID.String()+" "+sum(b))
+		}
+		sort.Strings(list)
+		out.Found[typ] = list
 	}
 	return out
 }
@@ -1138,6 +1186,7 @@ type pass struct {
 	// sites with SweepEvery: operations that took effect since the last sweep, and the last operation of the sequence that is executed in this pass
 	sinceSweep int
 	lastReal   int
+	furthers   int // further operations run after operations that did not take effect
 }
 
 func newPass(r *ev.Run, e *env, seqIdx int, seq []op, meta seqMeta, cfg config, s site, stream string) *pass {
@@ -1666,12 +1715,13 @@ func (p *pass) plan(o op, pre *snapshot) plan {
 // sameDocument: the DID shows the same document (the version numbers may differ).
 func sameDocument(x, y didSnap) bool {
 	return x.DID == y.DID && x.ResolveErr == y.ResolveErr && x.Deactivated == y.Deactivated && reflect.DeepEqual(x.VMs, y.VMs) && reflect.DeepEqual(x.Services, y.Services) &&
+		x.RowsErr == y.RowsErr && reflect.DeepEqual(x.RowVMs, y.RowVMs) && reflect.DeepEqual(x.RowServices, y.RowServices) &&
 		x.NetErr == y.NetErr && x.NetHash == y.NetHash && x.NetTxs == y.NetTxs
 }
 
 // rewrittenTogether: every DID of the subject got exactly one more version, all earlier versions are as they were and every DID shows the document it showed before.
 func rewrittenTogether(b, a subjSnap) bool {
-	if !b.Listed || !a.Listed || b.Exists != a.Exists || len(b.DIDs) != len(a.DIDs) {
+	if !b.Listed || !a.Listed || b.Exists != a.Exists || len(b.DIDs) != len(a.DIDs) || !reflect.DeepEqual(b.Found, a.Found) {
 		return false
 	}
 	for i := range a.DIDs {
@@ -1702,6 +1752,40 @@ func keptTogether(o op, pl plan, b, a subjSnap) bool {
 		}
 	}
 	return true
+}
+
+// storedOnly: the snapshot of a subject without the view through the dependent rows (what the stored document versions and the network side say).
+func storedOnly(s subjSnap) subjSnap {
+	out := subjSnap{Listed: s.Listed, Exists: s.Exists}
+	for _, d := range s.DIDs {
+		d.RowsErr, d.RowVMs, d.RowServices = "", nil, nil
+		out.DIDs = append(out.DIDs, d)
+	}
+	return out
+}
+
+// dependentDiff: what differs between two snapshots of a subject in the view through the dependent rows (latest version as the manager reads it, FindServices).
+func dependentDiff(b, a subjSnap) []string {
+	var out []string
+	for i := range a.DIDs {
+		if i >= len(b.DIDs) {
+			break
+		}
+		bd, ad := b.DIDs[i], a.DIDs[i]
+		if bd.RowsErr != ad.RowsErr {
+			out = append(out, fmt.Sprintf("%s: reading the latest version: %q before, %q now", ad.DID, bd.RowsErr, ad.RowsErr))
+		}
+		if !reflect.DeepEqual(bd.RowServices, ad.RowServices) {
+			out = append(out, fmt.Sprintf("%s: service rows of the latest version were %v, are %v (its stored document says %v)", ad.DID, bd.RowServices, ad.RowServices, ad.Services))
+		}
+		if !reflect.DeepEqual(bd.RowVMs, ad.RowVMs) {
+			out = append(out, fmt.Sprintf("%s: verification-method rows of the latest version were %v, are %v (its stored document says %v)", ad.DID, bd.RowVMs, ad.RowVMs, ad.VMs))
+		}
+	}
+	if !reflect.DeepEqual(b.Found, a.Found) {
+		out = append(out, fmt.Sprintf("FindServices returned %v before, %v now", b.Found, a.Found))
+	}
+	return out
 }
 
 var keptOnce sync.Once
@@ -1764,7 +1848,13 @@ func (p *pass) compare(o op, pl plan, phase, class string, tookEffect bool, pre,
 			} else {
 				key := "C13/not-rolled-back/" + o.Kind + "/after-" + class
 				what := "the operation did not (or must not) take effect but the subject does not show its previous state after the sweep"
-				if len(b.DIDs) == len(a.DIDs) {
+				if diff := dependentDiff(b, a); reflect.DeepEqual(storedOnly(b), storedOnly(a)) && len(diff) > 0 {
+					// the version rows and the stored documents are those of before, but what the restored version consists of is not: the rows it
+					// refers to (which FindServices serves and from which the next operation builds and publishes the next version) changed
+					p.count("restored_versions_with_changed_dependent_rows", 1)
+					p.violation("C13/previous-version-damaged/"+o.Kind+"/after-"+class, "the operation did not (or must not) take effect and the previous version is the latest again, but it is not the version "+
+						"it was: the verification-method / service rows it consists of, or what FindServices returns for the subject, changed: "+strings.Join(diff, "; "), o, phase, pre, post, nil)
+				} else if len(b.DIDs) == len(a.DIDs) {
 					var moved, stayed []string
 					for i := range a.DIDs {
 						if reflect.DeepEqual(a.DIDs[i], b.DIDs[i]) {
@@ -1777,8 +1867,10 @@ func (p *pass) compare(o op, pl plan, phase, class string, tookEffect bool, pre,
 						key = "C13/partial-change/" + o.Kind + "/after-" + class
 					}
 					what += fmt.Sprintf(" (changed: %v, unchanged: %v)", moved, stayed)
+					p.violation(key, what, o, phase, pre, post, nil)
+				} else {
+					p.violation(key, what, o, phase, pre, post, nil)
 				}
-				p.violation(key, what, o, phase, pre, post, nil)
 			}
 		}
 	} else if !p.broken {
@@ -1846,6 +1938,40 @@ func (p *pass) compare(o op, pl plan, phase, class string, tookEffect bool, pre,
 				if err != nil || len(found) != want {
 					p.violation("C13/find-services/"+o.Kind, fmt.Sprintf("FindServices(%s) returned %d services (err=%v), expected %d", o.Type, len(found), err, want), o, phase, pre, post, nil)
 				}
+			}
+			// ... for every service type of the subject, not only the one the operation is about: the services FindServices returns are those of the
+			// documents the DIDs of the subject show now (which were compared with the reference above)
+			if !p.broken {
+				wantFound := map[string][]string{}
+				for typ := range a.Found {
+					wantFound[typ] = []string{}
+				}
+				for _, d := range a.DIDs {
+					for _, s := range d.Services {
+						if at := strings.Index(s, ":"); at >= 0 {
+							wantFound[s[at+1:]] = append(wantFound[s[at+1:]], d.DID+"#"+s[:at])
+						}
+					}
+				}
+				gotFound := map[string][]string{}
+				for typ, list := range a.Found {
+					gotFound[typ] = []string{}
+					for _, x := range list {
+						gotFound[typ] = append(gotFound[typ], strings.SplitN(x, " ", 2)[0])
+					}
+				}
+				for typ := range wantFound {
+					sort.Strings(wantFound[typ])
+					sort.Strings(gotFound[typ])
+					if len(wantFound[typ]) == 0 && len(gotFound[typ]) == 0 {
+						continue
+					}
+					if !reflect.DeepEqual(wantFound[typ], gotFound[typ]) {
+						p.violation("C13/find-services/"+o.Kind, fmt.Sprintf("FindServices(%s) returned %v, the documents of the subject's DIDs hold %v", typ, gotFound[typ], wantFound[typ]), o, phase, pre, post, nil)
+						break
+					}
+				}
+				p.count("find_services_views_compared", len(a.Found))
 			}
 		}
 	}
@@ -2135,6 +2261,15 @@ func (p *pass) run() {
 			p.settle(o)
 			p.attribute(o, pre, post)
 		}
+		if !tookEffect && !pl.early && !pl.optional && p.live[o.Subject] && p.rnd.Intn(3) > 0 {
+			// a further operation (another one than the one that failed) on the same subject: it builds on the version the subject shows again, so what
+			// it writes and publishes must be that previous version plus this operation - not a version from which parts went missing with the abandoned one
+			var ok2 bool
+			if last, ok2 = p.further(o, class, post); !ok2 {
+				return
+			}
+			post = last
+		}
 		if !tookEffect && !natural && !pl.early && !pl.optional {
 			// the repeated attempt
 			pre2 := post
@@ -2162,6 +2297,40 @@ func (p *pass) run() {
 			p.attribute(o, pre2, post2)
 		}
 	}
+}
+
+// further runs one fault-free operation of another kind on the subject of the operation o that did not take effect (after the sweep) and judges it as the
+// ordinary operation it is: every DID advances by one version whose content is the restored previous version plus this operation, the network side
+// agrees, FindServices agrees. Returns the snapshot after it.
+func (p *pass) further(o op, class string, pre *snapshot) (*snapshot, bool) {
+	p.furthers++
+	fo := op{Subject: o.Subject}
+	switch p.rnd.Intn(3) {
+	case 0:
+		fo.Kind = kAddVM
+	case 1:
+		fo.Kind, fo.Type = kAddSvc, fmt.Sprintf("further%d", p.furthers)
+		fo.Endpoint = fmt.Sprintf("https://example.com/further/%d/%d", p.seqIdx, p.furthers)
+	default:
+		// every document is written again from the rows of its latest version
+		fo.Kind, fo.Type, fo.Old = kDelUnknown, fmt.Sprintf("never%d", p.furthers), "https://example.com/never"
+	}
+	p.cur = &armed{} // record boundaries and pending keys, no fault
+	err, stopped := p.exec(fo)
+	p.cur = nil
+	p.sweep(fo)
+	post := p.e.snap(fo.Subject)
+	p.count("further_operations_after_an_operation_that_did_not_take_effect", 1)
+	p.count("further:"+fo.Kind+"-after-"+base(o.Kind), 1)
+	phase := "further operation after " + o.Kind + " did not take effect (" + class + ") and the sweep"
+	if err != nil || stopped != nil {
+		p.violation("C13/further-operation-failed/"+fo.Kind, fmt.Sprintf("a further operation on the subject failed after an operation that did not take effect: %v", err), fo, phase, pre, post,
+			map[string]any{"operation_that_did_not_take_effect": o})
+		return post, false
+	}
+	ok := p.compare(fo, p.plan(fo, pre), phase, "further-operation", true, pre, post)
+	p.r.Case(strings.Join([]string{fo.Kind, p.cfg.Start, fmt.Sprint(len(p.methods)), p.s.Name, "further-operation-after-" + base(o.Kind)}, "/"), true)
+	return post, ok
 }
 
 // settle records what an operation that took effect means for later expectations.
@@ -2657,7 +2826,12 @@ func TestCheck(t *testing.T) {
 		"creation of an existing subject) and operations on a deactivated subject (add key, add/update/delete service: must be refused without any change when the subject has a did:nuts DID). Every operation of every sequence is executed once per fault site that exists under the configuration " +
 		"(stop at each boundary of transactionHelper, commit error / network refusal of the did:nuts method, stop inside the publish, failing clean-up transaction, sweep while in flight), " +
 		"then restart, ageing by SQL, the real rollback sweep, a snapshot comparison (Resolver, ListDIDs, FindServices, version rows, change log, didstore, publish ledger) against a " +
-		"reference computed from the operation and the state before it, and a retry when the operation did not take effect. A case is non-trivial when the fault of its site actually " +
+		"reference computed from the operation and the state before it, and a retry when the operation did not take effect. The snapshot of a DID holds, besides the stored document of every " +
+		"version and what the resolver and the network side show, the latest version as the manager reads it (DIDDocumentManager.Latest: its verification-method and service rows, which " +
+		"FindServices serves and from which every further operation builds and publishes the next version) and FindServices for every service type of the subject: after an operation that " +
+		"did not take effect all of it is what it was before. In 2 of 3 such cases a further operation of another kind (add key / add a service of a new type / delete an unknown service = write " +
+		"every document again) runs on the same subject before the retry and is judged like any successful operation: one more version per DID = previous version + that operation, network and FindServices agree. " +
+		"A case is non-trivial when the fault of its site actually " +
 		"fired during the operation (or no fault applies); distinct by (operation kind, configuration, methods enabled, fault site, outcome, subject existed before). " +
 		"Subject names: the subjects of sequence n get the names of one family (n picks it: plain, '_' against other characters, letter case, prefix, '.', single characters, " +
 		"numerically equal, > 255 characters differing in the last), in random order, the second subject is created by the third operation at the latest; besides them a sequence holds up to two " +
@@ -2777,11 +2951,14 @@ func TestCheck(t *testing.T) {
 
 	exhaustive := true
 	byFault := map[string]int{}
+	byFurther := map[string]int{}
 	for _, p := range results {
 		exhaustive = exhaustive && p.firedAll
 		for k, v := range p.stats {
 			if strings.HasPrefix(k, "fault:") {
 				byFault[k[6:]] += v
+			} else if strings.HasPrefix(k, "further:") {
+				byFurther[k[8:]] += v
 			} else {
 				r.Count(k, v)
 			}
@@ -2802,6 +2979,7 @@ func TestCheck(t *testing.T) {
 	r.Extra("sequences_with_look_alike_subjects_per_name_family_and_configuration", perFamily)
 	r.Extra("fault_sites", len(sites))
 	r.Extra("faults_injected_by_site_and_operation", byFault)
+	r.Extra("further_operations_by_kind_and_operation_that_did_not_take_effect", byFurther)
 	missing := []string{}
 	for _, s := range sites[1:] {
 		if s.SweepEvery > 0 {
